@@ -56,6 +56,19 @@ CLAIMED['C07'] = dict(
          'indistinguishable from an asynchronous message).',
     design='6/C07')
 
+CLAIMED['C04'] = dict(
+    level='exploration',
+    text='Seeded search over generated module classes (all datatypes, readonly/constant/export flags, limit '
+         'parameters, check hooks, commands) and change/do request sequences from 1..3 concurrent wire clients with '
+         'payloads from the boundary catalogue of the described datainfo, while limits are moved and pollers run. '
+         'Every driver call in the recorded log must be attributable to exactly one request that an independent '
+         'three-valued reference validator does not reject, with the canonical value, within the limits in force; '
+         'every must-reject request gets an error of a fitting class and leaves cache and update stream untouched.',
+    note='Trusted: simulation kernel, the reference validator sim.dtgen.classify (DONTCARE = documented leniencies), '
+         'request/driver-call attribution by handler task and request window. Limits in force are replayed from the '
+         'accepted limit changes; overlapping limit changes make the verdict DONTCARE.',
+    design='6/C04')
+
 NOT_APPLICABLE = {
     'C01': 'pure function of (datatype, candidate, previous) - no schedule, clock, I/O or fault dimension for a simulator to decide',
     'C02': 'pure round-trip law over (datatype, value) - no schedule, clock, I/O or fault dimension',
